@@ -69,7 +69,12 @@ class C16(framework.PropertyCheck):
             # the same with the macro defined in a nested position (include guard, do block, under a built-in form)
             extra += [r.choice(["(unless (defined? 'show9) (defmacro show9 [e] `(list ',e ,e)))", "(do (define g9 1) (defmacro show9 [e] `(list ',e ,e)))",
                                 "(when #t (defmacro show9 [e] `(list ',e ,e)))", "(if #t (defmacro show9 [e] `(list ',e ,e)))",
-                                "(if (defined? 'show9) 0 (defmacro show9 [e] `(list ',e ,e)))", "(&& 1 (do (defmacro show9 [e] `(list ',e ,e)) 1))"]), '(print (show9 (+ 1 2)) (show9 (if 1 2 3)))']
+                                "(if (defined? 'show9) 0 (defmacro show9 [e] `(list ',e ,e)))", "(&& 1 (do (defmacro show9 [e] `(list ',e ,e)) 1))",
+                                "(eval '(defmacro show9 [e] `(list ',e ,e)))", "(eval (list 'defmacro 'show9 '[e] '`(list ',e ,e)))"]), '(print (show9 (+ 1 2)) (show9 (if 1 2 3)))']
+        if r.random() < 0.25:
+            # a macro that does something when it is expanded and whose expansion is an atom: every call site is expanded exactly once
+            extra += ['(define sites9 0)', '(defmacro site9 [] (set [sites9 (+ sites9 1)]) sites9)', '(print "s " (site9))', '(print "s " (site9) " " sites9)',
+                      '(defmacro tag9 [] (print "expanding") "tag")', '(print (tag9))']
         if with_trace:
             extra += [r.choice(['(step 2)', '(step)', '(step 1)']), '(print INDEX " " t0^top.cnt)',
                       r.choice(['(print (find (= t0^top.clk 1)))', '(whenever (= t0^top.clk 1) (print "w" INDEX))', '(print t0^top.cnt@1)',
